@@ -6,7 +6,7 @@
 // recording target / end-of-stream without payload) and which recording targets accepted a
 // connection. Quiescence is a logical barrier, not a sleep: after the requester has its outcome the
 // harness dials every target itself ("sentinel") and drains the target's accept queue up to the
-// sentinel; TCP accept queues are FIFO, so every connection the server made before is in the drained set.
+// sentinel (its socket is bound to a name the target sees); accept queues are FIFO, so every connection the server made before is in the drained set.
 package c03
 
 import (
@@ -17,6 +17,7 @@ import (
 	"io"
 	"net"
 	"os"
+	"runtime"
 	"sort"
 	"strings"
 	"sync"
@@ -214,6 +215,7 @@ type endpoint struct {
 	rawUp   upstream.Upstream
 	rawSess *smux.Session
 	refused int // refusals seen on the real client's session so far
+	spare   bool // stdio: the spare server (role 2) has been used up
 }
 
 type rig struct {
@@ -234,8 +236,25 @@ var usedPorts sync.Map
 // freePort never hands out the same port twice in one process (e2e.FreePort closes its probe socket,
 // so two consecutive calls may return the same number).
 func freePort(udp bool) int {
-	for {
-		p := e2e.FreePort(udp)
+	for try := 0; ; try++ {
+		p := 0
+		if udp {
+			if pc, err := net.ListenPacket("udp", "127.0.0.1:0"); err == nil {
+				p = pc.LocalAddr().(*net.UDPAddr).Port
+				pc.Close()
+			}
+		} else {
+			if l, err := net.Listen("tcp", "127.0.0.1:0"); err == nil {
+				p = l.Addr().(*net.TCPAddr).Port
+				l.Close()
+			}
+		}
+		if p == 0 {
+			if try > 200 {
+				panic("no free port")
+			}
+			continue
+		}
 		if _, dup := usedPorts.LoadOrStore(fmt.Sprint(udp, p), true); !dup {
 			return p
 		}
@@ -262,7 +281,8 @@ func startRig(rec *vcommon.Rec, cfg cfgSpec) (r *rig, startErr error, fatal erro
 	r = &rig{rec: rec, cfg: cfg, intr: make(chan os.Signal, 1)}
 	var channels server.Channels
 	for i, n := range cfg.Table {
-		t, err := e2e.NewTarget(n, "tcp", "", false)
+		// unix-socket targets in the child's private directory: no foreign process can ever connect to them
+		t, err := e2e.NewTarget(n, "unix", sock("t"), false)
 		if err != nil {
 			r.close()
 			return nil, nil, err
@@ -473,23 +493,22 @@ func (r *rig) collect(ob *obs) e2e.Outcome {
 	ob.Hits = make([]int, len(r.targets))
 	ob.hitConn = make([][]net.Conn, len(r.targets))
 	for i, t := range r.targets {
-		s, err := net.Dial("tcp", t.Addr)
+		// the sentinel's own socket is bound to a name, so the target can tell it from the server's connections
+		local := sock("q")
+		s, err := net.DialUnix("unix", &net.UnixAddr{Name: local, Net: "unix"}, &net.UnixAddr{Name: t.Addr, Net: "unix"})
 		if err != nil {
+			os.Remove(local)
 			ob.Note = "sentinel dial failed: " + err.Error()
 			return e2e.Inconclusive
 		}
-		local := s.LocalAddr().String()
 		for {
 			c, o := t.Next()
 			if o != e2e.Done {
 				s.Close()
+				os.Remove(local)
 				return o
 			}
-			if c.RemoteAddr().String() == local {
-				// reset instead of FIN: sentinels must not pile up in TIME_WAIT
-				if tc, ok := s.(*net.TCPConn); ok {
-					tc.SetLinger(0)
-				}
+			if ra := c.RemoteAddr(); ra != nil && ra.String() == local {
 				s.Close()
 				c.Close()
 				break
@@ -497,7 +516,7 @@ func (r *rig) collect(ob *obs) e2e.Outcome {
 			ob.hitConn[i] = append(ob.hitConn[i], c)
 			ob.Hits[i]++
 		}
-		s.Close()
+		os.Remove(local)
 	}
 	return e2e.Done
 }
@@ -681,7 +700,8 @@ func (r *rig) clientRequest(ep *endpoint, name string) bool {
 	ob := r.requestVia(ep.lsn[name], exp)
 	if exp >= 0 && ob.Outcome == "refused" && ep.refused > 0 {
 		// the statement says nothing about requests that follow a refusal on the same session: decide on a fresh one
-		if up := ep.mkUp(2); up != nil {
+		if up := ep.mkUp(2); up != nil && !(r.cfg.Kind == "stdio" && ep.spare) {
+			ep.spare = true
 			if c, lsn, err := newClient(up, []string{name}); err == nil {
 				ob2 := r.requestVia(lsn[name], exp)
 				c.Shutdown()
@@ -965,6 +985,9 @@ func runConfig(rec *vcommon.Rec, cfg cfgSpec, idx int) {
 			if cfg.Kind == "dns" && i >= 3 {
 				break
 			}
+			if cfg.Kind == "ws" && cfg.Space == "exhaustive" && ep.idx == 1 && i >= 1 {
+				break // the full script set of this list runs on path 0 of the mirrored pair
+			}
 			if r.rawScript(ep, s, fmt.Sprint(i)) {
 				r.stalls++
 			}
@@ -997,6 +1020,7 @@ func runConfig(rec *vcommon.Rec, cfg cfgSpec, idx int) {
 // probeServes: does a server that started with a bad allow-list serve anything at all?
 func (r *rig) probeServes() bool {
 	up := r.eps[0].mkUp(2)
+	r.eps[0].spare = true
 	n := r.cfg.Table[0]
 	c, lsn, err := newClient(up, []string{n})
 	if err != nil {
@@ -1113,6 +1137,21 @@ func allowLists(table []string) [][]string {
 	return out
 }
 
+// subsets: every subset of the table in table order (empty = all).
+func subsets(table []string) [][]string {
+	var out [][]string
+	for m := 0; m < 1<<uint(len(table)); m++ {
+		var s []string
+		for i, n := range table {
+			if m&(1<<uint(i)) != 0 {
+				s = append(s, n)
+			}
+		}
+		out = append(out, s)
+	}
+	return out
+}
+
 func workload(rec *vcommon.Rec) []cfgSpec {
 	var items []cfgSpec
 	rng := vcommon.NewRand(rec.Seed(), "c03/workload")
@@ -1122,15 +1161,22 @@ func workload(rec *vcommon.Rec) []cfgSpec {
 			als := allowLists(tb)
 			items = append(items, cfgSpec{Kind: "tcp", Table: tb, Allows: als, Space: "exhaustive"})
 			if l <= 2 {
-				for _, a := range als {
-					for _, b := range als {
+				// every ordered pair of subsets (in table order) on the two paths
+				sub := subsets(tb)
+				for _, a := range sub {
+					for _, b := range sub {
 						items = append(items, cfgSpec{Kind: "ws", Table: tb, Allows: [][]string{a, b}, Space: "exhaustive"})
 					}
 				}
+				if l == 2 {
+					rv := []string{tb[1], tb[0]}
+					items = append(items, cfgSpec{Kind: "ws", Table: tb, Allows: [][]string{rv, nil}, Space: "sampled"},
+						cfgSpec{Kind: "ws", Table: tb, Allows: [][]string{sub[1+rng.Intn(2)], rv}, Space: "sampled"})
+				}
 			} else {
-				// three channels: every list on the first path, a seeded partner on the second
-				for _, a := range als {
-					items = append(items, cfgSpec{Kind: "ws", Table: tb, Allows: [][]string{a, als[rng.Intn(len(als))]}, Space: "sampled"})
+				// three channels: seeded pairs of lists
+				for k := 0; k < 4; k++ {
+					items = append(items, cfgSpec{Kind: "ws", Table: tb, Allows: [][]string{als[rng.Intn(len(als))], als[rng.Intn(len(als))]}, Space: "sampled"})
 				}
 			}
 		}
@@ -1240,6 +1286,9 @@ func replay(rec *vcommon.Rec, raw json.RawMessage, t *testing.T) {
 }
 
 func TestVerifC03(t *testing.T) {
+	// 16 shards run side by side and every case is a chain of tiny hand-overs between goroutines: more
+	// than a few Ps per shard only buys scheduler spinning (measured: 8x the system time)
+	runtime.GOMAXPROCS(4)
 	e2e.Quiet()
 	rec := vcommon.Open()
 	defer rec.Close()
